@@ -26,6 +26,7 @@ func init() {
 			{"C07.cli", "signal handler cancels the root context that every command receives; Execute error exits non-zero", 4, c07Cli},
 			{"C07.side-goroutine-errors", "the error a bare goroutine leaves in a variable of its starter is consulted before success is reported", 3, func(c *Ctx) { c.sideGoroutineErrors(func(string) bool { return true }) }},
 			{"C07.commands-propagate", "in the commands a failed (interrupted) context-taking operation makes the command fail", 15, c07CommandsPropagate},
+			{"C07.lister-done", "a listing the context can stop is not taken for complete without a look at the context", 1, c07ListerDone},
 			{"C07.retry-observes-ctx", "no retry loop repeats a failed context-taking operation without consulting the context", 1, c07RetryObservesCtx},
 			{"C07.tmp-rename", "rename of the temp file only on the nil edge of assembly; temp in the same directory; deferred removal", 3, c07TmpRename},
 		},
@@ -697,4 +698,101 @@ func assumeDominators(st *State, start *ssa.BasicBlock) {
 			st.assume(iff.Cond, false)
 		}
 	}
+}
+
+// c07ListerDone: a listing or producing component that is handed the context's own Done channel
+// (or the context) stops and closes its result channel when the operation is cancelled.  The
+// consumer's "for x := range ch" then ends exactly as it does when the listing is complete, so the
+// code after the loop must look at the context before it reports success; a consumer that only
+// checks the context inside the loop returns nil for a listing that was cut short.
+func c07ListerDone(c *Ctx) {
+	n := 0
+	for _, fn := range c.libFuncsAll() {
+		if fn.Blocks == nil || errResultOfFunc(fn) < 0 {
+			continue
+		}
+		observes := map[*ssa.BasicBlock]bool{}
+		for _, s := range doneSites(fn) {
+			observes[s.block] = true
+			if s.pred != nil {
+				observes[s.pred] = true
+			}
+		}
+		for _, call := range calls(fn, named("(context.Context).Err")) {
+			observes[call.Block()] = true
+		}
+		for _, b := range fn.Blocks {
+			for _, ins := range b.Instrs {
+				call, ok := ins.(*ssa.Call)
+				if !ok {
+					continue
+				}
+				if _, isChan := call.Type().Underlying().(*types.Chan); !isChan {
+					continue
+				}
+				givenDone := false
+				for _, a := range call.Call.Args {
+					if hasOrigin(a, func(o string) bool { return o == "call:(context.Context).Done#0" }) {
+						givenDone = true
+					}
+				}
+				if !givenDone {
+					continue
+				}
+				// the loop that receives from the channel: "v, ok := <-ch; if !ok { exit }"
+				for _, hb := range fn.Blocks {
+					iff := lastIf(hb)
+					if iff == nil {
+						continue
+					}
+					ex, isEx := stripNot(iff.Cond).(*ssa.Extract)
+					if !isEx || ex.Index != 1 {
+						continue
+					}
+					rc, isRecv := ex.Tuple.(*ssa.UnOp)
+					if !isRecv || rc.Op != token.ARROW || !rc.CommaOk {
+						continue
+					}
+					fromCall := false
+					for _, l := range leaves(rc.X) {
+						if l == ssa.Value(call) {
+							fromCall = true
+						}
+					}
+					if !fromCall {
+						continue
+					}
+					n++
+					_, truth, _ := cmpOf(iff.Cond)
+					exit := hb.Succs[1] // ok == false
+					if !truth {
+						exit = hb.Succs[0]
+					}
+					// from the exit, a nil-error return must not be reachable without observing the context
+					bad := ""
+					seen := map[*ssa.BasicBlock]bool{}
+					work := []*ssa.BasicBlock{exit}
+					for len(work) > 0 && bad == "" {
+						x := work[len(work)-1]
+						work = work[:len(work)-1]
+						if seen[x] || observes[x] {
+							continue
+						}
+						seen[x] = true
+						if r, ok := x.Instrs[len(x.Instrs)-1].(*ssa.Return); ok {
+							ei := errResultOfFunc(fn)
+							if ei < len(r.Results) && isNilConst(unspill(r, r.Results[ei])) {
+								bad = c.pos(r.Pos())
+							}
+							continue
+						}
+						work = append(work, x.Succs...)
+					}
+					c.verdict(bad == "", fnKey(fn)+":listing-cut-short", call.Pos(), "after a listing that the context can stop, success is reported only after a look at the context",
+						"the channel returned by "+callee(call)+" is closed when the context is cancelled (it was given ctx.Done()); the loop over it then ends normally and the return at "+bad+" reports success for a listing that was cut short")
+				}
+			}
+		}
+	}
+	c.ok("listers", 0, "%d loop(s) over channels of components that were handed the context's Done channel", n)
 }
